@@ -126,8 +126,100 @@ def check_exclude(led):
         led.ok(name, EX, backend='run-time(bounded)')
 
 
+def check_exclude_proof(led):
+    """exclude_dofs_matrix on a COO matrix of symbolic size seen through one generic stored entry (row R, col C, value V)"""
+    import z3
+    from .. import coosym
+    from ..pysym import integer, cond_z3, Cond
+    for tag, (pdC, pdT) in SUBSETS.items():
+        it = PC.mk()
+        coosym.install(it)
+        n = integer('nsize')
+        R, C, V = integer('R'), integer('C'), real('V')
+        facts = [to_z3(n) >= 4, to_z3(R) >= 0, to_z3(R) < to_z3(n), to_z3(C) >= 0, to_z3(C) < to_z3(n), to_z3(real('r2')) > 0, to_z3(real('L')) > 0]
+        it.facts += facts
+        excl = ([0] if pdC else []) + ([1] if pdT else []) + [2]
+
+        def run():
+            cc = PC.new_cc(it, model='clpt_donnell_bc1', alphadeg=0., r2=real('r2'), L=real('L'), pdC=pdC, pdT=pdT, stack=[real('th0')],
+                           plyt=real('plyt'), laminaprop=(real('E1'),))
+            it.call(it.getattr(cc, '_rebuild'), [], {})
+            k = coosym.SymCOO(R, C, V, (n, n), name='K')
+            return cc, it.call(it.getattr(cc, 'exclude_dofs_matrix'), [k], dict(return_kuk=True))
+        res = it.explore(run)
+        name = '%s[%s]' % (EX, tag)
+        probs = []
+        npaths = 0
+        for path, out in res:
+            if out[0] == 'raise':
+                probs.append('raises %s%r' % (out[1].tname, tuple(str(a)[:60] for a in out[1].eargs)))
+                continue
+            npaths += 1
+            cc, o = out[1]
+            if sorted(cc.attrs['excluded_dofs']) != excl:
+                probs.append('excluded_dofs %s' % (cc.attrs['excluded_dofs'],))
+            kuu, kuk = o.get('kuu'), o.get('kuk')
+            conds = [cond_z3(c) if isinstance(c, Cond) else c for c in path.conds]
+
+            def implied(goal):
+                s_ = z3.Solver()
+                s_.set('timeout', 10000)
+                for f in facts + conds:
+                    s_.add(f)
+                s_.add(z3.Not(goal))
+                return s_.check() == z3.unsat
+            rz, cz = to_z3(R), to_z3(C)
+            free_r = z3.And(*[rz != e for e in excl])
+            free_c = z3.And(*[cz != e for e in excl])
+            rank = lambda v: v - z3.Sum([z3.If(v > e, 1, 0) for e in excl])
+            if not isinstance(kuu, coosym.SymCOO):
+                probs.append('kuu is %r' % (kuu,))
+                continue
+            alive_goal = z3.And(free_r, free_c)
+            if kuu.alive and not implied(alive_goal):
+                probs.append('an entry of a prescribed row/column survives in kuu on path %s' % [repr(c) for c in path.conds][-4:])
+            if not kuu.alive and not implied(z3.Not(alive_goal)):
+                probs.append('a free-free entry is dropped from kuu on path %s' % [repr(c) for c in path.conds][-4:])
+            if kuu.alive:
+                if not implied(to_z3(kuu.row.expr) == rank(rz)) or not implied(to_z3(kuu.col.expr) == rank(cz)):
+                    probs.append('kuu entry placed at (%s, %s) on path %s' % (kuu.row.expr, kuu.col.expr, [repr(c) for c in path.conds][-4:]))
+                if not K.compare(kuu.data.expr, V)[0]:
+                    probs.append('kuu value changed: %s' % kuu.data.expr)
+            want_shape = (n - len(excl), n - len(excl))
+            if len(kuu._shape) != 2 or not all(K.compare(a if isinstance(a, P) else P.const(a), b)[0] for a, b in zip(kuu._shape, want_shape)):
+                probs.append('kuu shape %s' % (kuu._shape,))
+            for m_ in (kuu, kuk.coo if isinstance(kuk, coosym.DenseOf) else None):
+                tk = getattr(m_, 'taken', None)
+                if m_ is not None and (not tk or len(set(tk.values())) != 1 or set(tk) != {'row', 'col', 'data'}):
+                    probs.append('row, col and data of %s are not filtered by one and the same selection' % m_.name)
+            # kuk = dense(entries with C < num0) with the prescribed rows deleted
+            if not isinstance(kuk, coosym.DenseOf):
+                probs.append('kuk is %r' % (kuk,))
+                continue
+            kc = kuk.coo
+            in_first = cz < 3
+            if kc.alive and not implied(in_first):
+                probs.append('kuk keeps an entry of a column >= 3')
+            if not kc.alive and not implied(z3.Not(in_first)):
+                probs.append('kuk drops an entry of the first three columns')
+            if kc.alive and not (K.compare(kc.row.expr, R)[0] and K.compare(kc.col.expr, C)[0] and K.compare(kc.data.expr, V)[0]):
+                probs.append('kuk entry (%s, %s, %s)' % (kc.row.expr, kc.col.expr, kc.data.expr))
+            if len(kc._shape) != 2 or not K.compare(kc._shape[0] if isinstance(kc._shape[0], P) else P.const(kc._shape[0]), n)[0] or kc._shape[1] != 3:
+                probs.append('kuk shape %s before the deletion' % (kc._shape,))
+            if [(tuple(sorted(d[0])), d[1]) for d in kuk.deleted] != [(tuple(excl), 0)]:
+                probs.append('kuk deletion %s' % (kuk.deleted,))
+        clause = 'kuu == K[free, free] (entry-wise), kuk == K[free, 0:3]'
+        if probs or not npaths:
+            led.fail('%s/%s' % (name, clause), EX, {'differences': (probs or ['no returning path'])[:8]}, signature='exclude-proof')
+        else:
+            led.ok('%s/%s' % (name, clause), EX, backend='generic-entry symbolic execution + z3')
+
+
 def check(led):
     led.bounded_item('ConeCyl.calc_full_c: proved symbolically for vectors of the sizes 12 and 21 (all entries, load factor and prescribed values '
                      'symbolic), all four admissible sets of prescribed amplitudes; bounded in the vector length only')
     check_full_c(led)
+    led.trust('numpy/scipy semantics used by the generic-entry model of COO matrices (cmverif/coosym.py): element-wise comparison and masked '
+              'in-place arithmetic, np.where + np.take as a selection, toarray() sums stored entries, np.delete removes rows')
+    check_exclude_proof(led)
     check_exclude(led)
